@@ -49,8 +49,8 @@ type BodyReader struct {
 	Next  *Values
 	Fail  bool
 	Pages []string
-	// LoginOnly: the application's login values carry an identifier and a password and nothing
-	// else (they implement authboss.UserValuer but not RememberValuer etc.)
+	// LoginOnly: the application's login and registration values carry an identifier and a
+	// password and nothing else (authboss.UserValuer only: no RememberValuer, no ArbitraryValuer)
 	LoginOnly bool
 }
 
@@ -69,7 +69,7 @@ func (b *BodyReader) Read(page string, r *http.Request) (authboss.Validator, err
 	if b.Next == nil {
 		return &Values{}, nil
 	}
-	if b.LoginOnly && page == "login" {
+	if b.LoginOnly && (page == "login" || page == "register") {
 		return LoginValues{b.Next}, nil
 	}
 	return b.Next, nil
